@@ -4,6 +4,7 @@ import json, os, subprocess
 ROOT = os.path.dirname(os.path.dirname(os.path.abspath(__file__)))
 props = [json.loads(l) for l in open(os.path.join(ROOT, "properties.jsonl"))]
 
+HOOKS = [l.split()[0] for l in subprocess.run(["git", "-C", "/repo", "log", "--format=%h %s"], stdout=subprocess.PIPE, text=True).stdout.splitlines() if l.split(" ", 1)[1].startswith("verif hooks")]
 MC = "model_checking"
 EX = "exploration"
 CHECKS = {
@@ -35,9 +36,15 @@ CHECKS = {
          "TLC-enumerated templates, TLC-judged outputs against the Replace TLA+ specification", "5 C17", "the match sequence is the engine's own (C01/C09); digit runs are parsed maximally"),
  "C18": (EX, "TLC enumerates all short strings over an alphabet with every syntax character; escape(s) must only insert backslashes, compile under all 12 flag sets, and match exactly like the literal AST under ESSem.",
          "TLC-enumerated strings, TLC-judged against Escape.tla / ESSem", "5 C18", "strings up to length 2-3"),
+ "C08": (EX, "ESGrammar.tla is a recogniser for ECMAScript Pattern in the legacy (Annex B), u and v grammars with the early errors; TLC enumerates as a state space every string of at most n tokens over seven token alphabets and the runner's Ok/Err under 12 flag sets x 2 pipelines must equal the verdict in both directions; seeded single-edit neighbours of rendered family patterns are judged by TLC.",
+         "TLC-enumerated token strings (state space) judged by the ESGrammar TLA+ recogniser + TLC-judged near-valid edits", "5 C08",
+         "corners the transcription does not decide are answered 'unk' and never alarmed; D14 (\\u{...} without u/v) is a known finding required by the pinned suite"),
+ "C07": (EX, "Every compile of the C08 exploration must return (panics are caught per case, process deaths and watchdog expiries are attributed to their case), and Limits.tla states the resource contract for adversarially large patterns (nesting to 10^5-10^6, 10^6 groups/loops/alternatives/characters, counts to 10^23, nested exact counts), which the runner expands and compiles in child processes.",
+         "TLC-enumerated short strings + TLA+ resource-limit families replayed under a watchdog in child processes", "5 C07",
+         "totality over arbitrarily long inputs is sampled at the listed sizes, not exhausted; watchdog 20 s / 60 s per compile call"),
 }
 
-NA = {}
+NA = {"C11": "The property is the equality of about 400 static interval tables with the Unicode 17 character database. A TLA+ specification cannot contain that database, the sandbox holds no copy of UCD 17 (only Unicode 16 tables inside regex-syntax and a few Unicode 17 predicates in Rust std), and General_Category / Script / Script_Extensions are not stable across versions, so no sound oracle exists here; model-based verification with TLC does not apply (DESIGN.md section 6). The structural rules around property escapes are covered by C08 (name validity, strings only under v and never negated) and C12/C10 (complement, case closure)."}
 man = {
  "version": 1,
  "setup_cmd": "./check --setup",
@@ -45,7 +52,7 @@ man = {
   "guard": "regress_verif",
   "enable": "--cfg regress_verif via /verif/harness/.cargo/config.toml rustflags (hooks also need the crate's std feature); src/verif.rs",
   "baseline_off_cmd": "cd /repo && cargo test --workspace --no-fail-fast --offline",
-  "source_commits": ["dbb5865"],
+  "source_commits": HOOKS,
   "add_only": True,
  },
  "engines": [
